@@ -403,7 +403,15 @@ def c20_gen(ctx: Ctx, k: int):
         lines += [f"dx_dt = i{depth-1} - x", "dy_dt = -y*i0"]
         rng.shuffle(lines)
         return {"text": "states(x=1, y=0.5)\nparameters(p=2)\n" + "\n".join(lines) + "\n", "depth": depth}
+    if k % 6 == 1:
+        # an unused intermediate whose presence changes the sorter's tie-breaks between the derivatives
+        # (dropping it reorders them): rows must still follow the generated code's state order
+        c1, c2 = round(rng.uniform(1, 900), 1), round(rng.uniform(1, 90), 2)
+        return {"text": (f"states(s0=1, s1=2, s2=3, s3=4)\nparameters(p=0.5)\ni1 = s1 + s2\nds1_dt = i0\ni0 = {c1}*p\nds2_dt = s2 - i0\n"
+                         f"ds0_dt = i3*s0\nds3_dt = {c2} - s3\ni3 = log({c2})\n"), "depth": 0}
     cfg = gen.ModelCfg(depth=2, max_inters=6, p_ref_deriv=0.0)
+    if k % 3 == 2:
+        cfg = gen.ModelCfg(depth=1, max_inters=7, min_states=3, max_states=5, p_unused_inter=0.85, p_ref_deriv=0.0)
     cfg.expr = gen.ExprCfg(p_cond=0.1, p_ccond=0.02, p_mod=0.0, p_floor=0.0, p_relnum=0.0, funcs=("exp", "log", "sqrt", "sin", "cos", "tan", "atan"))
     m = gen.gen_model(rng, cfg)
     return {"text": m.text(rng), "depth": 0}
